@@ -805,3 +805,170 @@ Proof.
   destruct (run_recognised fa c thr g ns shapes Hr Hd) as [text' [Ht' Hrec]].
   assert (text' = text) by congruence. subst text'. exists text. auto.
 Qed.
+
+(** ** C. the value class "non-literal": union count
+
+    [has_node_value dir g i p]: node [i] has a value of [p] that is an IRI or
+    a blank node (direct: some triple [i p o] with a node object; inverse:
+    some triple [s p i]).  [nonlit_count]: the number of listings of
+    instances of the class with such a value -- what the property asks for. *)
+Definition has_node_value (dir : direction) (g : graph) (i p : str) : bool :=
+  existsb (fun t => touches dir t i && str_eqb (tp t) p && is_node (to t)) g.
+
+Definition nonlit_count (dir : direction) (I : insts) (g : graph) (cls p : str) : N :=
+  sumN (map (fun ie : str * list str =>
+               if has_node_value dir g (fst ie) p then count_in cls (snd ie) else 0) I).
+
+(** no literal carries a datatype that reads as a non-literal kind ("IRI",
+    "BNode", "NONLITERAL", or a string starting with the label sentinel) *)
+Definition datatypes_literal (g : graph) : Prop :=
+  forall t l dt, In t g -> to t = OL l dt -> nonlit_kind dt = false.
+
+Lemma elem_type_kind (n : node) : elem_type n = c_IRI_ELEM_TYPE \/ elem_type n = c_BNODE_ELEM_TYPE.
+Proof. unfold elem_type. destruct (nk n); auto. Qed.
+
+(** a node value is counted under its kind *)
+Lemma node_value_kind dir tau I g i p :
+  p <> tau -> has_node_value dir g i p = true ->
+  0 < cnt dir tau I g i p c_IRI_ELEM_TYPE \/ 0 < cnt dir tau I g i p c_BNODE_ELEM_TYPE.
+Proof.
+  intros Hp H. unfold has_node_value in H. apply existsb_exists in H. destruct H as [t [Ht H]].
+  apply andb_true_iff in H. destruct H as [H Hn]. apply andb_true_iff in H. destruct H as [Hto Hpp].
+  apply str_eqb_eq in Hpp. apply str_eqb_neq in Hp.
+  assert (G : forall k, (exists r, contrib dir tau I t i p = k :: r) -> 0 < cnt dir tau I g i p k).
+  { intros k [r E]. apply (cnt_pos_of_In dir tau I g i p k t Ht). rewrite E. cbn [count_in]. rewrite str_eqb_refl. lia. }
+  assert (E : exists n r, contrib dir tau I t i p = elem_type n :: r).
+  { destruct dir; cbn [touches contrib] in *.
+    - rewrite Hto, Hpp, str_eqb_refl. cbn [andb]. unfold keys_direct. destruct (to t) as [o|? ?]; [|discriminate].
+      rewrite Hpp, Hp. eexists; eexists; reflexivity.
+    - destruct (to t) as [o|? ?]; [|discriminate]. rewrite Hto, Hpp, str_eqb_refl. cbn [andb]. unfold keys_inverse.
+      rewrite Hpp, Hp. eexists; eexists; reflexivity. }
+  destruct E as (n & r & E). destruct (elem_type_kind n) as [Ek|Ek]; rewrite Ek in E; [left | right]; apply G; eauto.
+Qed.
+
+(** a key of a non-literal kind is contributed by a node value only *)
+Lemma kind_node_value dir tau I g i p k :
+  datatypes_literal g -> p <> tau -> nonlit_kind k = true -> 0 < cnt dir tau I g i p k ->
+  has_node_value dir g i p = true.
+Proof.
+  intros Hd Hp Hk Hc. unfold cnt in Hc. apply sumN_pos_ex in Hc. destruct Hc as [x [Hx Hx0]].
+  apply in_map_iff in Hx. destruct Hx as [t [<- Ht]]. apply In_count_in in Hx0.
+  unfold has_node_value. apply existsb_exists. exists t. split; [exact Ht|]. cbn beta.
+  destruct dir; cbn [touches contrib] in *.
+  - destruct (str_eqb (nid (ts t)) i && str_eqb (tp t) p) eqn:E; [|destruct Hx0]. cbn [andb].
+    apply andb_true_iff in E. destruct E as [_ E]. apply str_eqb_eq in E.
+    destruct (to t) as [o|l dt] eqn:Eo; [reflexivity|]. exfalso. unfold keys_direct in Hx0. rewrite Eo in Hx0.
+    destruct (str_eqb (tp t) tau); [destruct Hx0|]. destruct Hx0 as [<-|[]].
+    rewrite (Hd t l dt Ht Eo) in Hk. discriminate.
+  - destruct (to t) as [o|l dt]; [|destruct Hx0].
+    destruct (str_eqb (nid o) i && str_eqb (tp t) p) eqn:E; [|destruct Hx0]. reflexivity.
+Qed.
+
+Lemma occ_plus_unfold dir tau I g cls p k :
+  p <> tau ->
+  occ dir tau I g cls p k CKplus =
+  sumN (map (fun ie : str * list str => if 0 <? cnt dir tau I g (fst ie) p k then count_in cls (snd ie) else 0) I).
+Proof.
+  intros Hp. unfold occ. apply sumN_map_ext. intros ie _. unfold card_ok.
+  apply str_eqb_neq in Hp. rewrite Hp, andb_true_r. reflexivity.
+Qed.
+
+(** references and kinds never exceed the union *)
+Lemma occ_nonlit_le_union dir tau I g cls p k ck :
+  datatypes_literal g -> p <> tau -> nonlit_kind k = true ->
+  occ dir tau I g cls p k ck <= nonlit_count dir I g cls p.
+Proof.
+  intros Hd Hp Hk. unfold occ, nonlit_count. apply sumN_le_pointwise. intros [i cs] _. cbn [fst snd].
+  destruct (card_ok tau p ck (cnt dir tau I g i p k)) eqn:E; [|lia].
+  apply card_ok_pos in E. rewrite (kind_node_value dir tau I g i p k Hd Hp Hk E). lia.
+Qed.
+
+(** nestedness of the IRI-valued and the BNode-valued instances of a class *)
+Definition kind_within (dir : direction) (tau : str) (I : insts) (g : graph) (cls p k1 k2 : str) : Prop :=
+  forall i cs, In (i, cs) I -> In cls cs -> 0 < cnt dir tau I g i p k1 -> 0 < cnt dir tau I g i p k2.
+
+Definition kinds_nested (dir : direction) (tau : str) (I : insts) (g : graph) (cls p : str) : Prop :=
+  kind_within dir tau I g cls p c_IRI_ELEM_TYPE c_BNODE_ELEM_TYPE \/
+  kind_within dir tau I g cls p c_BNODE_ELEM_TYPE c_IRI_ELEM_TYPE.
+
+Lemma union_is_larger_kind dir tau I g cls p k1 k2 :
+  datatypes_literal g -> p <> tau ->
+  ((k1 = c_IRI_ELEM_TYPE /\ k2 = c_BNODE_ELEM_TYPE) \/ (k1 = c_BNODE_ELEM_TYPE /\ k2 = c_IRI_ELEM_TYPE)) ->
+  kind_within dir tau I g cls p k1 k2 ->
+  nonlit_count dir I g cls p = occ dir tau I g cls p k2 CKplus.
+Proof.
+  intros Hd Hp Hk Hw. rewrite (occ_plus_unfold dir tau I g cls p k2 Hp). unfold nonlit_count.
+  apply sumN_map_ext. intros [i cs] Hin. cbn [fst snd].
+  assert (Hk2 : nonlit_kind k2 = true) by (destruct Hk as [[_ ->]|[_ ->]]; reflexivity).
+  destruct (0 <? cnt dir tau I g i p k2) eqn:E2.
+  - apply N.ltb_lt in E2. rewrite (kind_node_value dir tau I g i p k2 Hd Hp Hk2 E2). reflexivity.
+  - destruct (has_node_value dir g i p) eqn:Eh; [|reflexivity].
+    rewrite count_in_count_str. apply count_str_zero. intros Hcls.
+    apply N.ltb_ge in E2. destruct (node_value_kind dir tau I g i p Hp Eh) as [H|H].
+    + destruct Hk as [[-> ->]|[-> ->]]; [specialize (Hw i cs Hin Hcls H); lia | lia].
+    + destruct Hk as [[-> ->]|[-> ->]]; [lia | specialize (Hw i cs Hin Hcls H); lia].
+Qed.
+
+(** C02_nonliteral_nested: the largest count among the non-literal kinds is
+    the number of instances with a non-literal value *)
+Theorem nonliteral_max_is_union dir tau I g cls p :
+  datatypes_literal g -> p <> tau -> kinds_nested dir tau I g cls p ->
+  (exists k0, (k0 = c_IRI_ELEM_TYPE \/ k0 = c_BNODE_ELEM_TYPE) /\
+              occ dir tau I g cls p k0 CKplus = nonlit_count dir I g cls p) /\
+  (forall k ck, nonlit_kind k = true -> occ dir tau I g cls p k ck <= nonlit_count dir I g cls p).
+Proof.
+  intros Hd Hp Hn. split; [|intros k ck Hk; exact (occ_nonlit_le_union dir tau I g cls p k ck Hd Hp Hk)].
+  destruct Hn as [Hw|Hw].
+  - exists c_BNODE_ELEM_TYPE. split; [right; reflexivity|]. symmetry.
+    apply (union_is_larger_kind dir tau I g cls p c_IRI_ELEM_TYPE c_BNODE_ELEM_TYPE Hd Hp); auto.
+  - exists c_IRI_ELEM_TYPE. split; [left; reflexivity|]. symmetry.
+    apply (union_is_larger_kind dir tau I g cls p c_BNODE_ELEM_TYPE c_IRI_ELEM_TYPE Hd Hp); auto.
+Qed.
+
+Lemma value_class_nonlit tau p k : p <> tau -> (value_class tau p [k] = VNonLit <-> nonlit_kind k = true).
+Proof.
+  intros Hp. apply str_eqb_neq in Hp. unfold value_class. rewrite Hp.
+  destruct (nonlit_kind k); split; intros H; try reflexivity; discriminate H.
+Qed.
+
+(** the "largest count passes" form, for the non-literal value class, is
+    "the union count passes" *)
+Theorem key_passes_occ_max_union fa c (thr : F fa) I g cls inv p :
+  datatypes_literal g -> p <> r_tau c -> kinds_nested (dir_of inv) (r_tau c) I g cls p ->
+  (key_passes_occ_max fa c thr I g cls inv p VNonLit <->
+   (inv = true -> r_inverse c = true) /\
+   0 < nonlit_count (dir_of inv) I g cls p /\
+   fle fa thr (ratio fa (nonlit_count (dir_of inv) I g cls p) (class_count I cls)) = true).
+Proof.
+  intros Hd Hp Hn.
+  destruct (nonliteral_max_is_union (dir_of inv) (r_tau c) I g cls p Hd Hp Hn) as [(k0 & Hk0 & E0) Hle].
+  assert (V0 : value_class (r_tau c) p [k0] = VNonLit).
+  { apply (value_class_nonlit _ _ _ Hp). destruct Hk0 as [->| ->]; reflexivity. }
+  split.
+  - intros (Hi & k & ck & Hv & Hpos & Hmax & Hf). split; [exact Hi|].
+    assert (E : occ (dir_of inv) (r_tau c) I g cls p k ck = nonlit_count (dir_of inv) I g cls p).
+    { apply N.le_antisymm.
+      - apply Hle. apply (value_class_nonlit _ _ _ Hp). exact Hv.
+      - rewrite <- E0. apply Hmax. exact V0. }
+    rewrite <- E. auto.
+  - intros (Hi & Hpos & Hf). split; [exact Hi|]. exists k0, CKplus. rewrite E0.
+    split; [exact V0|]. split; [exact Hpos|]. split; [|exact Hf].
+    intros k' ck' Hv'. apply Hle. apply (value_class_nonlit _ _ _ Hp). exact Hv'.
+Qed.
+
+(** C02_keys_iff_union (binary64, empty shapes kept) *)
+Theorem e2e_keys_iff_union c thr g ns shapes :
+  r_remove_empty c = false -> wf_frac thr -> datatypes_literal g ->
+  run_shapes BAlg c thr g = inl (ns, shapes) ->
+  exists I, track (r_tau c) (mode_of c) (r_cap c) g = inl I /\
+    forall sh, In sh shapes -> class_count I (sh_class sh) < 2 ^ 53 ->
+    forall inv p, p <> r_tau c -> kinds_nested (dir_of inv) (r_tau c) I g (sh_class sh) p ->
+      (In (inv, p, VNonLit) (map (skey (scfg_of c ns)) (sh_stmts sh)) <->
+       (inv = true -> r_inverse c = true) /\
+       0 < nonlit_count (dir_of inv) I g (sh_class sh) p /\
+       fle BAlg thr (ratio BAlg (nonlit_count (dir_of inv) I g (sh_class sh) p) (class_count I (sh_class sh))) = true).
+Proof.
+  intros Hre Hw Hd H. destruct (e2e_keys_max_B c thr g ns shapes Hre Hw H) as (I & HT & HK).
+  exists I. split; [exact HT|]. intros sh Hsh Hlt inv p Hp Hn.
+  rewrite (HK sh Hsh Hlt inv p VNonLit). exact (key_passes_occ_max_union BAlg c thr I g (sh_class sh) inv p Hd Hp Hn).
+Qed.
